@@ -10,5 +10,5 @@ python3 tools/extract.py
 [ -f harness/Cargo.lock ] || cp /repo/Cargo.lock harness/Cargo.lock
 (cd harness && cargo build --offline)
 # the real endpoint binary for the process-level suites (C05, C13, C19), guard off
-(cd /repo && cargo build --offline -p trusttunnel_endpoint --target-dir "$OLDPWD/harness/target/endpoint")
+(cd /repo && cargo build --offline -p trusttunnel_endpoint -p trusttunnel_endpoint_tools --target-dir "$OLDPWD/harness/target/endpoint")
 echo "setup: ok"
